@@ -91,7 +91,7 @@ class Oracle:
 
 
 def cfg_for(unit: Any) -> ctl.Config:
-    return ctl.Config(alphabet=ALPHABET, closing=('gates', 'play', 'resume'), resume_default=('dflt',))
+    return ctl.Config(alphabet=ALPHABET, closing=('gates', 'play', 'resume'), resume_default=('dflt',), ops_when='always')
 
 
 PROP = CtlProperty(ID, Oracle, cfg_for)
